@@ -25,3 +25,10 @@ package sync2
 //@ trusted
 //@ assigns m.Dom
 //@ ensures [delete-dom] m.Dom == store(old(m.Dom), key, false)
+
+//@ func (*Map).LoadOrStore
+//@ trusted
+//@ assigns m.Dom, m.Val
+//@ ensures [los-loaded] result1 == old(m.Dom[key])
+//@ ensures [los-dom] m.Dom == store(old(m.Dom), key, true)
+//@ ensures [los-val] m.Val == ite(old(m.Dom[key]), old(m.Val), store(old(m.Val), key, value)) && result0 == m.Val[key]
